@@ -1,5 +1,5 @@
 import CvssVerif.Proofs.Formulas
-import CvssVerif.Props.C03
+import CvssVerif.Props.E2E
 /-
   The tie by translation for the score properties (C01–C06, C13).
 
@@ -59,6 +59,17 @@ theorem env3_source (o : V3.Obj3) (v : Spec3.BaseVec) (t : Spec3.TempVec) (n : S
     (hb : C01.Encodes o v) (ht : C02.EncodesT o t) (he : C03.EncodesE o n) :
     Gen.F3.Environmental_Score o = tenth (Spec3.envTenths v t n).toNat := by
   rw [FormulaTie.env3]; exact C03.env3_score_of_object o v t n hb ht he
+
+/-- From the byte string to the source text: for every byte string the environmental decoder accepts, the three score
+    functions *as written in /repo* return the FIRST scores of the vectors the string denotes. -/
+theorem source_scores_of_string (s : Bytes) (o : V3.Obj3) (h : V3.decode .environmental V3.Obj3.new s = (o, none)) :
+    ∃ v t n, Spec3.vecOf s = some (v, t, n) ∧
+      Gen.F3.Base_Score o = tenth (Spec3.baseTenths v).toNat ∧
+      Gen.F3.Temporal_Score o = tenth (Spec3.temporalTenths v t).toNat ∧
+      Gen.F3.Environmental_Score o = tenth (Spec3.envTenths v t n).toNat := by
+  obtain ⟨v, t, n, hv, h1, h2, h3⟩ := E2E.env_scores_of_string s o h
+  exact ⟨v, t, n, hv, by rw [FormulaTie.base3]; exact h1, by rw [FormulaTie.temporal3]; exact h2,
+    by rw [FormulaTie.env3]; exact h3⟩
 
 /-- C06 for the source text: the severity the source computes is the model's at every level. -/
 theorem severity3_source (o : V3.Obj3) :
